@@ -67,6 +67,9 @@ def random_tree(rng, depth=4):
     def fill(prefix, d):
         for i in range(rng.randint(0, 3)):
             name = rng.choice(["a", "b", "c", "src", "x.txt", "data"]) + (str(i) if rng.random() < 0.5 else "")
+            if rng.random() < 0.12:
+                # legal names that look like pieces of a listing line (and, without their head, like a sibling's name)
+                name = rng.choice(["rev=2; ", "k=v; ", "type=dir;size=0; ", "x y ", "a;b", "perm=; "]) + name
             p = prefix + name
             if p in t:
                 continue
